@@ -275,6 +275,12 @@ pub proof fn lemma_lower_seq_idem(s: Seq<char>)
     }
 }
 
+// A-validated per char (exhaustive over all scalar values): lower-casing never yields the empty string
+#[verifier::external_body]
+pub proof fn axiom_lower_nonempty(c: char)
+    ensures u_to_lower(c).len() > 0
+{ }
+
 // ---- theory: split.rs ----
 // ---- splitting vocabulary (defined recursively, so the lemmas below are proved, not assumed) ----
 pub open spec fn last_index_of(s: Seq<char>, c: char) -> int decreases s.len()
@@ -432,6 +438,28 @@ pub proof fn lemma_single_excludes(c: char, x: char)
     ensures !has_char(seq![c], x)
 {
     if has_char(seq![c], x) { let i = choose|i: int| 0 <= i < seq![c].len() && seq![c][i] == x; }
+}
+
+
+pub proof fn lemma_split_pieces_no_sep(s: Seq<char>, c: char)
+    ensures forall|i: int| 0 <= i < split_spec(s, c).len() ==> !has_char(#[trigger] split_spec(s, c)[i], c)
+    decreases s.len()
+{
+    lemma_first_index(s, c);
+    let f = first_index_of(s, c);
+    if f < 0 || f >= s.len() {
+        assert(split_spec(s, c) =~= seq![s]);
+    } else {
+        let head = s.subrange(0, f);
+        let tail = s.subrange(f + 1, s.len() as int);
+        lemma_split_pieces_no_sep(tail, c);
+        if has_char(head, c) { let i = choose|i: int| 0 <= i < head.len() && head[i] == c; assert(s[i] == c); }
+        let ps = split_spec(s, c);
+        assert(ps =~= seq![head] + split_spec(tail, c));
+        assert forall|i: int| 0 <= i < ps.len() implies !has_char(#[trigger] ps[i], c) by {
+            if i == 0 { assert(ps[0] == head); } else { assert(ps[i] == split_spec(tail, c)[i - 1]); }
+        }
+    }
 }
 
 
